@@ -180,6 +180,18 @@ def make_history(framing, kind):
             vals = list(got.registers) if kind != "fc1" else list(got.bits)[:8]
             if not same(vals, expect(i), "values returned by transaction %d" % i):
                 return False
+        # then a request nobody answers: an error object -- not an earlier reply, not None
+        req = request(3)
+        req.unit_id = u
+        clients[0].rx = b""
+        try:
+            got = clients[0].execute(req)
+        except Exception as e:
+            explain("unanswered transaction raised %s", type(e).__name__)
+            return False
+        if not is_error_object(got):
+            explain("a request that got no reply returned %r", got)
+            return False
         return True
     return history
 
